@@ -675,6 +675,25 @@ def extract_context(path, rec):
     INERT.difference_update(CONTEXT_FNS); INERT.difference_update(['drop', 'enter', 'switch'])
     impl = context_impl(src) + guard_helpers(src)
     impl, inlined = inline_helpers(impl, rec)
+    # An inlined helper is verified only where the contracted functions call it.  If anything ELSE calls it (a wrapper in this file, another
+    # file), that call runs code no contract speaks about: new code must not hide behind the inlining rule (DESIGN 2.6).
+    if inlined:
+        spans = [(m.group(1), m.start()) for m in re.finditer(r'\bfn (\w+)', src)]
+        def encl(pos):
+            cur = '?'
+            for n, st in spans:
+                if st <= pos: cur = n
+                else: break
+            return cur
+        ok_callers = set(CONTEXT_FNS) | set(inlined) | {'drop'}
+        for h in inlined:
+            outside = sorted({encl(m.start()) for m in re.finditer(r'(?:\.|Self::|Context::)%s\(' % h, src)} - ok_callers - {h})
+            for f in sorted(os.listdir(os.path.dirname(path))):
+                if f.endswith('.rs') and f != os.path.basename(path):
+                    if re.search(r'\.%s\(' % h, strip_comments(open(os.path.join(os.path.dirname(path), f)).read())) and re.search(r'pub(?:\([a-z]+\))?\s+(?:unsafe\s+)?fn %s\b' % h, src):
+                        outside.append(f)
+            if outside:
+                raise Unsupported('impl Context has a function `%s` the contracts do not speak about, and it is called from outside the verified functions (%s)' % (h, outside))
     for fn in CONTEXT_FNS:
         key = 'context.' + fn
         rec.begin(key, 'src/context.rs::impl Context::' + fn)
